@@ -35,6 +35,11 @@ def _prepare(crate):
             shutil.copytree(s, d)
         else:
             shutil.copy2(s, d)
+    # harness crates include ../../common/*.rs by relative #[path]
+    common_dst = os.path.join(CACHE, "replay", "common")
+    if os.path.exists(common_dst):
+        shutil.rmtree(common_dst)
+    shutil.copytree(os.path.join(os.path.dirname(src), "common"), common_dst)
     return dst
 
 
